@@ -33,8 +33,21 @@ if _VF_SYMBOLIC:
     return _vf_orig_sc(fn, sig, bound, subconditions, allow_interpretation)
   _chc.consider_shortcircuit = _vf_no_sc
   def _vf_real(x): return _chc.realize(x)
+  from crosshair.tracers import NoTracing as _vf_untraced
 else:
   def _vf_real(x): return x
+  import contextlib
+  _vf_untraced = contextlib.nullcontext
+
+class Key:
+  """Cache key whose equality is that of a (symbolic) int and whose hash is constant (a valid hash): the dict
+  inside LruCache then decides membership through __eq__, so z3 reasons about the equality pattern between the
+  keys instead of enumerating key values (int keys are realised by hash())."""
+  __slots__ = ('k',)
+  def __init__(self, k): self.k = k
+  def __hash__(self): return 7
+  def __eq__(self, other): return isinstance(other, Key) and self.k == other.k
+  def __repr__(self): return 'Key(%r)' % (self.k,)
 
 # ---------------------------------------------------------------- LruCache: reference model ----------------
 def _lru_mk(maxsize, items, hits, misses):
@@ -212,20 +225,22 @@ def _hist(trees, handles, ops):
   return True
 
 def _pickled(tree, handle):
-  """Serialisation round trip; inputs are concrete here (the C pickler cannot see through symbolic proxies)."""
+  """Serialisation round trip. Every input is concrete here (realised by the caller: the C pickler cannot see
+  through symbolic proxies), so the caller runs this untraced: z3 picks the inputs, the real code runs natively."""
   _reset(); envL, envE = _Env(), _Env()
   e = _lazy(tree, envL)
   blob = lazy_fns.pickler.dumps(e)
   e2 = lazy_fns.pickler.loads(blob)
+  e3 = lazy_fns.pickler.loads(lazy_fns.pickler.dumps(e, compress=True), compress=True)
   for _ in range(2):
     r, ok = _round(e2, tree, envE, handle)
     if not ok: return False
+  if envL.cnt.n != 0: return False                 # the copy was evaluated, not the original callee
   lazy_fns.clear_cache()
-  r, ok = _round(blob, tree, _Env(), handle)      # maybe_make accepts the bytes (a second, fresh copy)
+  r, ok = _round(e3, tree, _Env(), handle)        # gzip variant: a second, independent copy
   if not ok: return False
-  z = lazy_fns.pickler.loads(lazy_fns.pickler.dumps(e, compress=True), compress=True)
   lazy_fns.clear_cache()
-  r, ok = _round(z, tree, _Env(), handle)
+  r, ok = _round(blob, tree, _Env(), handle)      # maybe_make accepts the bytes
   return ok
 
 def _raises_missing(x):
@@ -263,12 +278,10 @@ def _splits(n, parts):
   return [[i] + r for i in range(n + 1) for r in _splits(n - i, parts - 1)]
 
 
-def depth(t):
-  return 0 if t is None else 1 + max(depth(c) for c in t[1])
-
-
 def name(t):
-  return 'x' if t is None else t[0] + ''.join('_' + name(c) for c in t[1])
+  if t is None or isinstance(t, int):
+    return 'x' if t is None else str(t)
+  return t[0] + {'!': 'C', '~': 'U', '': ''}[t[2] if len(t) > 2 else ''] + ''.join('_' + name(c) for c in t[1])
 
 
 class Emit:
@@ -285,18 +298,24 @@ class Emit:
     self.leaves += 1
     return f"('L', x{j % self.nleafvars if self.nleafvars else j})"
 
-  def flag(self):
-    if not self.cached:
+  def flag(self, spec=''):
+    """spec '!' = cache_result_ fixed True, '~' = fixed False, '' = symbolic."""
+    if not self.cached or spec == '~':
       return 'False'
+    if spec == '!':
+      return 'True'
     self.flags.append(f'c{len(self.flags)}')
     return self.flags[-1]
 
   def node(self, t, lz='False'):
     if t is None:
       return self.leaf()
-    p, kids = t
+    if isinstance(t, int):
+      return f"('L', {t})"
+    p, kids = t[0], t[1]
+    spec = t[2] if len(t) > 2 else ''
     if p in ('item', 'attr'):
-      c = self.flag()
+      c = self.flag(spec)
       if lz != 'False': self.conflict = c
       x = f"('{'pair' if p == 'item' else 'obj'}', ({c}, {lz}), {self.node(kids[0])}, {self.node(kids[1])})"
       if p == 'item':
@@ -305,13 +324,13 @@ class Emit:
       self.attr += 1
       return f"('attr', {x}, '{'ab'[self.attr % 2]}')"
     if p == 'meth':
-      c_obj = self.flag()
+      c_obj = self.flag('~' if spec else '')
       x = f"('obj', ({c_obj}, False), {self.node(kids[0])}, {self.node(kids[1])})"
       k = self.node(kids[2])
-      c = self.flag()
+      c = self.flag(spec)
       if lz != 'False': self.conflict = c; self.handle = True
       return f"('meth', ({c}, {lz}), {x}, {k})"
-    c = self.flag()
+    c = self.flag(spec)
     if lz != 'False': self.conflict = c; self.handle = True
     ks = ', '.join(self.node(k) for k in kids)
     return f"('{p}', ({c}, {lz}), {ks})"
@@ -330,45 +349,49 @@ def gen(p):
   s = [PRELUDE]
   A = s.append
   # ============================================================ LruCache, one inductive step ================
-  M, K = p['lru_maxsize'], p['lru_keys']
-  for n in range(0, M + 1):
-    ks = [f'k{j}' for j in range(n)]
-    params = ', '.join(['maxsize: int', 'op: int'] + [f'{k}: int' for k in ks] + [f'v{j}: int' for j in range(n)]
-                       + ['k: int', 'v: int', 'h: int', 'm: int'])
-    pre = [f'{max(n, 1)} <= maxsize <= {M} and 0 <= op <= 4 and 0 <= k < {K} and -50 <= v <= 50 and 0 <= h <= 1000 and 0 <= m <= 1000']
-    if n:
-      pre.append(' and '.join([f'0 <= {k} < {K}' for k in ks] + [f'-50 <= v{j} <= 50' for j in range(n)]))
-    if n > 1:
-      pre.append(' and '.join(f'k{a} != k{b}' for a in range(n) for b in range(a + 1, n)))
-    items = '[' + ', '.join(f'(k{j}, v{j})' for j in range(n)) + ']'
-    A(F(f'ob_lru_step_n{n}', params, pre, f"""
+  M = p['lru_maxsize']
+  for kind in p['lru_key_kinds']:
+    lo_k, hi_k = (-1000, 1000) if kind == 'obj' else (0, p['lru_int_keys'] - 1)
+    wrap = 'Key(%s)' if kind == 'obj' else '%s'
+    for n in range(0, (M if kind == 'obj' else p['lru_int_n']) + 1):
+      ks = [f'k{j}' for j in range(n)]
+      params = ', '.join(['maxsize: int', 'op: int'] + [f'{k}: int' for k in ks] + [f'v{j}: int' for j in range(n)]
+                         + ['k: int', 'v: int', 'h: int', 'm: int'])
+      pre = [f'{max(n, 1)} <= maxsize <= {M} and 0 <= op <= 4 and {lo_k} <= k <= {hi_k} and -50 <= v <= 50 and 0 <= h <= 1000 and 0 <= m <= 1000']
+      if n:
+        pre.append(' and '.join([f'{lo_k} <= {k} <= {hi_k}' for k in ks] + [f'-50 <= v{j} <= 50' for j in range(n)]))
+      if n > 1:
+        pre.append(' and '.join(f'k{a} != k{b}' for a in range(n) for b in range(a + 1, n)))
+      items = '[' + ', '.join(f'({wrap % ("k%d" % j)}, v{j})' for j in range(n)) + ']'
+      A(F(f'ob_lru_step_{kind}_n{n}', params, pre, f"""
       items = {items}
+      key = {wrap % 'k'}
       c = _lru_mk(maxsize, items, h, m)
-      out = _lru_do(c, op, k, v)
-      wout, opts, wh, wm = _lru_ref(items, maxsize, h, m, op, k, v)
+      out = _lru_do(c, op, key, v)
+      wout, opts, wh, wm = _lru_ref(items, maxsize, h, m, op, key, v)
       if out != wout: return False
       return _lru_inv(c, opts, maxsize, wh, wm)"""))
-  A(F('wit_lru_evict', 'k0: int, k1: int, k: int', f'0 <= k0 < {K} and 0 <= k1 < {K} and k0 != k1 and 0 <= k < {K}', """
-      c = _lru_mk(2, [(k0, 0), (k1, 1)], 0, 0)
-      c[k] = 2
-      return not (list(c) == [k1, k] and len(c) == 2)"""))
-  A(F('wit_lru_hit', 'k0: int, k1: int, k: int', f'0 <= k0 < {K} and 0 <= k1 < {K} and k0 != k1 and 0 <= k < {K}', """
-      c = _lru_mk(2, [(k0, 7), (k1, 1)], 0, 0)
-      return not (_lru_do(c, 0, k, None) == ('ok', 7) and list(c) == [k1, k0] and c.cache_info().hits == 1)"""))
+  A(F('wit_lru_evict', 'k0: int, k1: int, k: int', 'k0 != k1', """
+      c = _lru_mk(2, [(Key(k0), 0), (Key(k1), 1)], 0, 0)
+      c[Key(k)] = 2
+      return not (list(c) == [Key(k1), Key(k)] and len(c) == 2)"""))
+  A(F('wit_lru_hit', 'k0: int, k1: int, k: int', 'k0 != k1', """
+      c = _lru_mk(2, [(Key(k0), 7), (Key(k1), 1)], 0, 0)
+      return not (_lru_do(c, 0, Key(k), None) == ('ok', 7) and list(c) == [Key(k1), Key(k0)] and c.cache_info().hits == 1)"""))
   # ============================================================ LruCache, bounded histories ==================
   code = {'S': 1, 'G': 0, 'C': 3, 'N': 2, 'I': 4}
   for seq in p['lru_hists']:
     L = len(seq)
     params = ', '.join(['maxsize: int'] + [f'k{j}: int' for j in range(L) if seq[j] != 'C'] + [f'v{j}: int' for j in range(L) if seq[j] in 'SI'])
-    pre = ' and '.join([f'1 <= maxsize <= {p["lru_hist_maxsize"]}'] + [f'0 <= k{j} < {p["lru_hist_keys"]}' for j in range(L) if seq[j] != 'C']
+    pre = ' and '.join([f'1 <= maxsize <= {p["lru_hist_maxsize"]}'] + [f'-1000 <= k{j} <= 1000' for j in range(L) if seq[j] != 'C']
                        + [f'-50 <= v{j} <= 50' for j in range(L) if seq[j] in 'SI'])
-    ops = '[' + ', '.join(f"({code[ch]}, {'k%d' % j if ch != 'C' else 'None'}, {'v%d' % j if ch in 'SI' else 'None'})" for j, ch in enumerate(seq)) + ']'
+    ops = '[' + ', '.join(f"({code[ch]}, {'Key(k%d)' % j if ch != 'C' else 'None'}, {'v%d' % j if ch in 'SI' else 'None'})" for j, ch in enumerate(seq)) + ']'
     A(F(f'ob_lru_hist_{seq}', params, pre, f"""
       return _lru_hist(maxsize, {ops})"""))
   A(F('wit_lru_hist', 'k0: int, k1: int, k2: int', 'True', """
       c = func_utils.LruCache(maxsize=1)
-      c[k0] = 1; c.cache_clear(); c[k1] = 2
-      return not (_lru_do(c, 0, k2, None) == ('ok', 2) and len(c) == 1)"""))
+      c[Key(k0)] = 1; c.cache_clear(); c[Key(k1)] = 2
+      return not (_lru_do(c, 0, Key(k2), None) == ('ok', 2) and len(c) == 1)"""))
   # ============================================================ expressions: fully symbolic leaves, not cached =
   lo, hi = p['sym_range']
   group, gi = [], 0
@@ -419,7 +442,8 @@ def gen(p):
     A(F(f'ob_pickle_{name(t)}', params, pres, f"""
       {real}
       tree = {src}
-      return _pickled(tree, {'lz' if em.handle else 'False'})"""))
+      with _vf_untraced():
+        return _pickled(tree, {'lz' if em.handle else 'False'})"""))
   A(F('wit_flags', 'x0: int, x1: int, c0: bool, c1: bool', f'{lo2} <= x0 <= {hi2} and {lo2} <= x1 <= {hi2}', """
       _reset(); env = _Env()
       e = _lazy(('pair', (c0, False), ('cnt', (c1, False), ('L', x0)), ('L', x1)), env)
@@ -455,14 +479,17 @@ def gen(p):
   A(F('ob_fn_bound', 'n1: int, n2: int, x: int, touch: bool', [n1s, f'{B - p["fn_slack"]} <= n2 <= {B + 1} and 0 <= x <= 1'], f"""
       _reset()
       if lazy_fns.cache_info().maxsize != {B}: return False
-      for j in range(n1): lazy_fns.maybe_make(T(pair)(1000 + j, 0, cache_result_=True))
+      n1 = _vf_real(n1); n2 = _vf_real(n2); touch = _vf_real(touch)
+      def fill(base, lo, hi):          # concrete filler calls: executed by the real code, untraced (nothing symbolic in them)
+        with _vf_untraced():
+          for j in range(lo, hi): lazy_fns.maybe_make(T(pair)(base + j, 0, cache_result_=True))
+      fill(1000, 0, n1)
       lazy_fns.clear_cache()
       e = T(pair)(x, 1, cache_result_=True)
       r1 = lazy_fns.maybe_make(e)
-      for j in range(n2):
-        lazy_fns.maybe_make(T(pair)(2000 + j, 0, cache_result_=True))
-        if touch and j == 60:
-          if lazy_fns.maybe_make(e) is not r1: return False
+      fill(2000, 0, min(n2, 61))
+      if touch and lazy_fns.maybe_make(e) is not r1: return False
+      fill(2000, 61, n2)
       if lazy_fns.cache_info().currsize != min(1 + n2, {B}): return False
       calls = len(_LOG)
       r2 = lazy_fns.maybe_make(e)
@@ -472,22 +499,26 @@ def gen(p):
       return r2 is not r1 and r2 == [x, 1] and again == 1      # evicted: evaluated afresh, never a stale object"""))
   A(F('wit_fn_bound', 'n2: int', f'{B - 1} <= n2 <= {B}', f"""
       _reset()
+      n2 = _vf_real(n2)
       e = T(pair)(0, 1, cache_result_=True)
       r1 = lazy_fns.maybe_make(e)
-      for j in range(n2): lazy_fns.maybe_make(T(pair)(2000 + j, 0, cache_result_=True))
+      with _vf_untraced():
+        for j in range(n2): lazy_fns.maybe_make(T(pair)(2000 + j, 0, cache_result_=True))
       return not (lazy_fns.maybe_make(e) is not r1)"""))
   A(F('ob_obj_bound', 'n: int, v: int, w: int', f'{BO - 3} <= n <= {BO + 1} and -50 <= v <= 50 and -50 <= w <= 50', f"""
       _reset()
       if lazy_fns.object_info().maxsize != {BO}: return False
+      n = _vf_real(n)
       first = lazy_fns.LazyObject.new([v])
-      held = [lazy_fns.LazyObject.new(j) for j in range(n)]
+      with _vf_untraced():             # concrete filler objects
+        held = [lazy_fns.LazyObject.new(j) for j in range(n)]
       last = lazy_fns.LazyObject.new([w])
       # `first` has n + 1 younger objects: it is still held iff n + 2 <= bound
       if n + 2 <= {BO}:
         ok = lazy_fns.maybe_make(first) == [v]
       else:
         ok = _raises_missing(first)
-      return ok and lazy_fns.maybe_make(last) == [w] and (n == 0 or lazy_fns.maybe_make(held[n - 1]) == n - 1)"""))
+      return ok and lazy_fns.maybe_make(last) == [w] and lazy_fns.maybe_make(held[n - 1]) == n - 1"""))
   A(F('ob_obj_cleared', 'v: int, w: int', '-50 <= v <= 50 and -50 <= w <= 50', """
       _reset()
       val = [v]
@@ -512,8 +543,10 @@ def gen(p):
       return ok and _raises_missing(h) and _raises_missing(h.a) and _raises_missing(h.scaled(k, cache_result_=c)) and _raises_missing(T(add)(h.b, k))"""))
   A(F('wit_obj_missing', 'n: int', f'{BO - 2} <= n <= {BO + 1}', """
       _reset()
+      n = _vf_real(n)
       first = lazy_fns.LazyObject.new([1])
-      for j in range(n): lazy_fns.LazyObject.new(j)
+      with _vf_untraced():
+        for j in range(n): lazy_fns.LazyObject.new(j)
       return not _raises_missing(first)"""))
   return '\n'.join(s)
 
@@ -529,15 +562,19 @@ def _t(s):
   def parse(i):
     if s[i] == 'x':
       return None, i + 1
+    if s[i].isdigit():
+      return int(s[i]), i + 1
     j = i
     while s[j] != '(':
       j += 1
     p, kids, j = s[i:j], [], j + 1
+    spec = p[-1] if p[-1] in '!~' else ''
+    p = p.rstrip('!~')
     while True:
       k, j = parse(j)
       kids.append(k)
       if s[j] == ')':
-        return (p, kids), j + 1
+        return (p, kids, spec), j + 1
       j += 1
   t, _ = parse(0)
   assert all(len(n[1]) == ARITY[n[0]] for n in _nodes(t)), s
@@ -545,7 +582,7 @@ def _t(s):
 
 
 def _nodes(t):
-  if t is None:
+  if t is None or isinstance(t, int):
     return []
   return [t] + [n for c in t[1] for n in _nodes(c)]
 
@@ -553,26 +590,31 @@ def _nodes(t):
 def params(tier):
   size1, size2, size3 = trees(1), trees(2), trees(3)
   if tier == 'quick':
-    # a covering selection of 3-production skeletons: every production above and below every other one at least once
-    sel3 = [t for j, t in enumerate(size3) if j % 23 == 0]
+    sel3 = [t for j, t in enumerate(size3) if j % 41 == 0]
     return dict(
-        lru_maxsize=3, lru_keys=4, lru_hists=['SSCSG', 'SGSSG', 'SCSSS', 'ISNCI'], lru_hist_maxsize=2, lru_hist_keys=3,
-        sym_range=(-100, 100), sym_trees=size1 + size2 + sel3, sym_group=24,
+        lru_maxsize=3, lru_key_kinds=['obj', 'int'], lru_int_keys=3, lru_int_n=1,
+        lru_hists=['SSCSG', 'SGSSG', 'SCSSS', 'ISNCI'], lru_hist_maxsize=3,
+        sym_range=(-100, 100), sym_trees=size1 + size2 + sel3, sym_group=16,
         flag_range=(0, 1), flag_leafvars=3,
-        flag_trees=[_t(x) for x in ['okw(cnt(x),cnt(x))', 'add(mul(x,x),cnt(x))', 'item(cnt(x),x)', 'attr(x,add(x,x))',
-                                    'meth(x,x,cnt(x))', 'pair(add(x,x),cnt(x))', 'obj(x,okw(x,x))', 'add(cnt(x),cnt(x))']],
-        pickle_trees=[_t(x) for x in ['okw(cnt(x),cnt(x))', 'meth(x,mul(x,x),x)', 'item(x,add(x,x))', 'pair(cnt(x),attr(x,x))']],
-        hists={'cnt_cnt': (_t('cnt(x)'), _t('cnt(x)'), 4), 'pair_add': (_t('pair(x,cnt(x))'), _t('add(cnt(x),x)'), 3)},
+        # '~' = that call is never cached, '!' = always cached, otherwise its cache_result_ flag is symbolic
+        flag_trees=[_t(x) for x in ['okw(cnt(x),cnt(x))', 'add(mul~(x,x),cnt(x))', 'item(cnt(x),x)', 'attr(x,add(x,x))',
+                                    'meth(x,x,cnt~(x))', 'pair(add~(x,x),cnt(x))', 'obj(x,okw(x,x))', 'add(cnt(x),cnt(x))',
+                                    'okw(x,add~(cnt(x),cnt~(x)))']],
+        pickle_trees=[_t(x) for x in ['okw(cnt(x),cnt(x))', 'meth(x,mul(x,x),x)', 'item(x,add(x,x))', 'pair(cnt(x),attr(x,x))', 'add(okw(x,cnt(x)),x)', 'obj(cnt(x),meth~(x,x,x))']],
+        hists={'cnt_cnt': (_t('cnt(x)'), _t('cnt!(0)'), 3), 'pair_add': (_t('pair~(x,cnt(0))'), _t('add!(cnt!(0),x)'), 3)},
         fn_prefill=[0, 128], fn_slack=2, timeout=150)
   return dict(
-      lru_maxsize=3, lru_keys=6, lru_hists=['SSCSG', 'SGSSG', 'SCSSS', 'ISNCI', 'SSSGS', 'SSGSG', 'SSCSS', 'SCSCS', 'GSGSG', 'SSSCG', 'SNSGS', 'SSSSG'],
-      lru_hist_maxsize=3, lru_hist_keys=4,
+      lru_maxsize=4, lru_key_kinds=['obj', 'int'], lru_int_keys=4, lru_int_n=3,
+      lru_hists=['SSCSG', 'SGSSG', 'SCSSS', 'ISNCI', 'SSSGS', 'SSGSG', 'SSCSS', 'SCSCS', 'GSGSG', 'SSSCG', 'SNSGS', 'SSSSG',
+                 'SSSSSG', 'SSCSSG', 'SGSGSS'],
+      lru_hist_maxsize=4,
       sym_range=(-1000, 1000), sym_trees=size1 + size2 + size3, sym_group=40,
       flag_range=(0, 2), flag_leafvars=3,
-      flag_trees=size1 + size2 + [_t(x) for x in ['add(okw(x,mul(x,x)),x)', 'meth(cnt(x),x,item(x,x))', 'okw(cnt(x),add(cnt(x),x))', 'pair(cnt(cnt(x)),cnt(x))']],
+      flag_trees=size1 + size2 + [_t(x) for x in ['add(okw(x,mul~(x,x)),x)', 'meth~(cnt(x),x,item(x,x))', 'okw(cnt(x),add~(cnt(x),x))',
+                                                  'pair(cnt(cnt(x)),cnt~(x))', 'okw(x,add(cnt(x),cnt(x)))']],
       pickle_trees=size1 + size2,
-      hists={'cnt_cnt': (_t('cnt(x)'), _t('cnt(x)'), 5), 'pair_add': (_t('pair(x,cnt(x))'), _t('add(cnt(x),x)'), 4),
-             'okw_okw': (_t('okw(cnt(x),x)'), _t('okw(x,cnt(x))'), 4), 'item_meth': (_t('item(x,cnt(x))'), _t('meth(x,x,cnt(x))'), 3)},
+      hists={'cnt_cnt': (_t('cnt(x)'), _t('cnt(0)'), 4), 'pair_add': (_t('pair(x,cnt(0))'), _t('add!(cnt(0),x)'), 4),
+             'okw_okw': (_t('okw(cnt(x),0)'), _t('okw(0,cnt(x))'), 4), 'item_meth': (_t('item(x,cnt(0))'), _t('meth~(x,x,cnt(0))'), 3)},
       fn_prefill=[0, 1, 100, 127, 128, 129], fn_slack=3, timeout=1200)
 
 
@@ -602,9 +644,10 @@ def run(tier):
       ' and all with 3 productions' if tier != 'quick' else ' and every 23rd of the 3-production skeletons')
   shown['hists'] = {k: (name(a), name(b), n) for k, (a, b, n) in p['hists'].items()}
   rep.bounds(**shown, per_condition_timeout_s=timeout,
-             note='lru_step: n = 0..lru_maxsize distinct symbolic keys below lru_keys in symbolic recency order, maxsize n..lru_maxsize, one symbolic '
-                  'operation (get/set/contains/clear/cache_insert) with a symbolic key; lru_hists: S=set G=get C=clear N=contains I=cache_insert, '
-                  'every key symbolic; productions: add mul okw(zeta=,alpha=) cnt(stateful) item(pair(..)[i]) attr(obj(..).a/.b) meth(obj(..).scaled(..)) '
+             note='lru_step: n = 0..lru_maxsize distinct symbolic keys (kind obj: Key objects over ints in -1000..1000 with value equality and a '
+                  'constant hash; kind int: plain ints below lru_int_keys, n <= lru_int_n) in symbolic recency order, maxsize max(n,1)..lru_maxsize, '
+                  'symbolic values and hit/miss counters, one symbolic operation (get/set/contains/clear/cache_insert) with a symbolic key; '
+                  'lru_hists: S=set G=get C=clear N=contains I=cache_insert from an empty cache, every key symbolic, maxsize 1..lru_hist_maxsize; productions: add mul okw(zeta=,alpha=) cnt(stateful) item(pair(..)[i]) attr(obj(..).a/.b) meth(obj(..).scaled(..)) '
                   'pair/obj(root only); sym_range/flag_range = leaf ranges; hists = (expr0, expr1, number of symbolic ops in {make0, make1, clear_cache}); '
                   'fn_bound/obj_bound are read from the library (128/1024)')
   rep.outside('expressions deeper than 3 productions / other callees', 'LruCache with maxsize > lru_maxsize in the step obligations (the real 128/1024 '
